@@ -1908,6 +1908,81 @@ static void run_direct(vrt_rng *r, int idx, long ops)
 }
 
 /* ======================================================================= */
+/* mode=stackrace (C01): stacked schedulers that start, run and finish on
+ * another stream while ABT_pool_add_sched is still returning */
+static int c_sr_scen, c_sr_scheds, c_sr_units, c_sr_nonauto, c_sr_auto;
+static int g_sr_runs[64];
+static void sr_unit(void *arg)
+{
+    __atomic_fetch_add((int *)arg, 1, __ATOMIC_SEQ_CST);
+}
+static void run_stackrace(vrt_rng *r, int idx)
+{
+    VRT_ABT(ABT_init(0, NULL));
+    ABT_pool host;
+    VRT_ABT(ABT_pool_create_basic(ABT_POOL_FIFO, ABT_POOL_ACCESS_MPMC, ABT_FALSE, &host));
+    int nes = 1 + (int)vrt_range(r, 3);
+    ABT_xstream xs[3];
+    for (int i = 0; i < nes; i++)
+        VRT_ABT(ABT_xstream_create_basic(ABT_SCHED_BASIC, 1, &host, ABT_SCHED_CONFIG_NULL, &xs[i]));
+    int ns = 4 + (int)vrt_range(r, 20), nu = 0;
+    ABT_sched keep[24];
+    ABT_pool keep_pool[24];
+    int nkeep = 0, nauto = 0;
+    memset(g_sr_runs, 0, sizeof(g_sr_runs));
+    static const ABT_sched_predef pd[] = { ABT_SCHED_BASIC, ABT_SCHED_PRIO, ABT_SCHED_RANDWS, ABT_SCHED_DEFAULT };
+    for (int i = 0; i < ns; i++) {
+        ABT_pool p;
+        ABT_sched st;
+        ABT_sched_config cfg;
+        int automatic = (int)vrt_range(r, 2);
+        VRT_ABT(ABT_pool_create_basic(ABT_POOL_FIFO, ABT_POOL_ACCESS_MPMC, ABT_FALSE, &p));
+        int k = (int)vrt_range(r, 3);
+        for (int j = 0; j < k && nu < 64; j++, nu++) {
+            if (vrt_range(r, 2))
+                VRT_ABT(ABT_thread_create(p, sr_unit, &g_sr_runs[nu], ABT_THREAD_ATTR_NULL, NULL));
+            else
+                VRT_ABT(ABT_task_create(p, sr_unit, &g_sr_runs[nu], NULL));
+        }
+        VRT_ABT(ABT_sched_config_create(&cfg, ABT_sched_config_automatic, automatic, ABT_sched_config_var_end));
+        VRT_ABT(ABT_sched_create_basic(pd[vrt_range(r, 4)], 1, &p, cfg, &st));
+        VRT_ABT(ABT_sched_config_free(&cfg));
+        VRT_ABT(ABT_pool_add_sched(host, st));
+        keep_pool[i] = p;
+        if (!automatic)
+            keep[nkeep++] = st;
+        else
+            nauto++;
+        if (vrt_range(r, 3) == 0)
+            vrt_sleep_us(20);
+    }
+    for (int i = 0; i < nes; i++) {
+        VRT_ABT(ABT_xstream_join(xs[i]));
+        VRT_ABT(ABT_xstream_free(&xs[i]));
+    }
+    for (int i = 0; i < nu; i++)
+        VRT_CHECK(g_sr_runs[i] == 1, "stacked:not-exactly-once", "unit %d of a stacked scheduler ran %d times", i, g_sr_runs[i]);
+    /* every stacked scheduler has finished; the ones that are not automatic
+     * are released by the user */
+    for (int i = 0; i < nkeep; i++)
+        VRT_ABT(ABT_sched_free(&keep[i]));
+    for (int i = 0; i < ns; i++)
+        VRT_ABT(ABT_pool_free(&keep_pool[i]));
+    VRT_ABT(ABT_pool_free(&host));
+    VRT_ABT(ABT_finalize());
+    if (idx < 2)
+        vrt_sample("stackrace scenario %d: %d streams serve a host pool, %d stacked schedulers (%d automatic, %d freed by the "
+                   "user after the streams were joined) with %d units in their own pools", idx, nes, ns, nauto, nkeep, nu);
+    vrt_signature_add("es%d,ns%d,auto%d", nes, ns, nauto);
+    vrt_count(c_sr_scen, 1);
+    vrt_count(c_sr_scheds, (uint64_t)ns);
+    vrt_count(c_sr_units, (uint64_t)nu);
+    vrt_count(c_sr_nonauto, (uint64_t)nkeep);
+    vrt_count(c_sr_auto, (uint64_t)nauto);
+    vrt_count(c_cases, 1);
+}
+
+/* ======================================================================= */
 /* mode=life (C12): exit, cancel, revive, state machine */
 enum { LB_RETURN = 0, LB_YIELDS, LB_SELF_EXIT, LB_THREAD_EXIT, LB_UNTIL_CANCELLED, LB_BLOCK_THEN_RETURN, LB_NBEHAV };
 enum { LC_NONE = 0, LC_BEFORE_START, LC_WHILE_RUNNING, LC_WHILE_BLOCKED };
@@ -2765,6 +2840,15 @@ int main(int argc, char **argv)
         int max_es = (int)vrt_arg_int("max-es", 5);
         for (int i = 0; i < progs && vrt_num_violations() == 0; i++)
             run_forest(&r, i, max_es, cap);
+    } else if (!strcmp(mode, "stackrace")) {
+        c_sr_scen = vrt_counter("stackrace_scenarios");
+        c_sr_scheds = vrt_counter("stacked_schedulers_added");
+        c_sr_units = vrt_counter("units_in_stacked_pools");
+        c_sr_nonauto = vrt_counter("stacked_schedulers_freed_by_user");
+        c_sr_auto = vrt_counter("stacked_schedulers_automatic");
+        int n = (int)vrt_arg_int("scenarios", 20);
+        for (int i = 0; i < n && vrt_num_violations() == 0; i++)
+            run_stackrace(&r, i);
     } else if (!strcmp(mode, "join")) {
         c_jtrials = vrt_counter("join_trials");
         c_jmany = vrt_counter("join_many_trials");
